@@ -101,9 +101,17 @@ pub fn parse_stage(kind: &str) {
     }
 }
 
+/// characters that std's classification / case-mapping functions treat specially: digits of
+/// other scripts and numeric symbols (is_numeric but not to_digit(10)), full-width forms,
+/// letters whose case mapping lands in ASCII (Kelvin sign, long s, dotless / dotted i) or
+/// expands, exotic white space, combining and zero-width marks
+pub const SPECIAL_CHARS: &[char] = &['\u{0668}', '\u{FF18}', '\u{00B2}', '\u{00BD}', '\u{2167}', '\u{1D7D6}', '\u{0967}',
+    '\u{FF2B}', '\u{FF57}', '\u{FF0F}', '\u{212A}', '\u{017F}', '\u{0130}', '\u{0131}', '\u{00DF}', '\u{01C5}',
+    '\u{00A0}', '\u{2003}', '\u{3000}', '\t', '\n', '\u{0301}', '\u{200B}', '\u{FEFF}', '\u{2212}', '\u{2013}'];
 fn rand_unicode(rng: &mut Rng, n: usize) -> String {
     let mut s = String::new();
     for _ in 0..n {
+        if rng.chance(1, 8) { s.push(*rng.pick(SPECIAL_CHARS)); continue; }
         let c = match rng.below(6) { 0 => rng.below(128) as u32, 1 => 128 + rng.below(1900) as u32, 2 => 0x800 + rng.below(0xF000) as u32, 3 => 0x10000 + rng.below(0xFFFF) as u32, _ => 32 + rng.below(95) as u32 };
         if let Some(ch) = std::char::from_u32(c) { s.push(ch); }
     }
@@ -116,9 +124,9 @@ fn mutate(src: &str, rng: &mut Rng) -> String {
         if chars.is_empty() { chars.push(*rng.pick(&alphabet)); continue; }
         let i = rng.below(chars.len() as u64) as usize;
         match rng.below(5) {
-            0 => { chars[i] = *rng.pick(&alphabet); }
+            0 => { chars[i] = if rng.chance(1, 6) { *rng.pick(SPECIAL_CHARS) } else { *rng.pick(&alphabet) }; }
             1 => { chars.remove(i); }
-            2 => { chars.insert(i, *rng.pick(&alphabet)); }
+            2 => { chars.insert(i, if rng.chance(1, 6) { *rng.pick(SPECIAL_CHARS) } else { *rng.pick(&alphabet) }); }
             3 => { chars.truncate(i); }
             _ => { let j = rng.below(chars.len() as u64) as usize; chars.swap(i, j); }
         }
